@@ -21,6 +21,9 @@ type sendOp struct {
 	Opcode int
 	Slices [][]byte
 	Reader *chunkReader // for file
+	// for file, instead of Reader: a standard library reader (bytes.Reader, bytes.Buffer, strings.Reader: they have Len());
+	// the payload is then given in Slices
+	StdReader io.Reader
 }
 
 type sendObs struct {
@@ -150,7 +153,11 @@ func doSend(conn *gws.Conn, tap *memConn, op sendOp) (obs sendObs) {
 			conn.WritevAsync(gws.Opcode(op.Opcode), op.Slices, func(e error) { ch <- e })
 			err = waitErr(ch)
 		case "file":
-			err = conn.WriteFile(gws.Opcode(op.Opcode), op.Reader)
+			if op.StdReader != nil {
+				err = conn.WriteFile(gws.Opcode(op.Opcode), op.StdReader)
+			} else {
+				err = conn.WriteFile(gws.Opcode(op.Opcode), op.Reader)
+			}
 		case "broadcast":
 			b := gws.NewBroadcaster(gws.Opcode(op.Opcode), joinSlices(op.Slices))
 			err = b.Broadcast(conn)
